@@ -12,7 +12,8 @@ Definition show_segs (o : option (list bytes)) : string :=
 Inductive case :=
 | CSeg (cwd : list bytes) (path : bytes)                          (* toSegments(cwd, path) *)
 | CSess (dirs : list (list bytes)) (cs : list cmd)                (* a session; [dirs] = existing directories *)
-| CPath (cwd root : bytes) (segs : list bytes).                   (* FTPShell(FilePath(root))._path(segs).path *)
+| CPath (cwd root : bytes) (segs : list bytes)                    (* FTPShell(FilePath(root))._path(segs).path *)
+| CGlob (s : bytes).                                              (* ftp._isGlobbingExpression([s]) *)
 
 Fixpoint segs_eqb (a b : list bytes) : bool :=
   match a, b with
@@ -26,9 +27,10 @@ Definition run_show (c : case) : string :=
   | CSeg cwd path => show_segs (toSegments cwd path)
   | CSess dirs cs =>
       let access := fun segs => existsb (segs_eqb segs) dirs in
-      let '(wd, outs) := run access [] cs in
+      let '((wd, _), outs) := run access start cs in
       String.concat ";" (map (fun o => String.concat "+" (map show_segs o)) outs)
       ++ "|" ++ show_segs (Some wd)
   | CPath cwd root segs =>
       match descendant cwd (mk cwd root) segs with Some r => "P:" ++ show_hex r | None => "X" end
+  | CGlob s => show_bool (is_glob s)
   end.
